@@ -305,7 +305,7 @@ func streamCase(c *Ctx, r *runner, file []byte, origin string) {
 
 func encoderStreams(c *Ctx, r *runner) {
 	rng := c.Rng.Fork()
-	colorClasses := []int{1, 2, 3, 4, 5, 9, 16, 17, 40, 256, 0}
+	colorClasses := []int{1, 2, 3, 4, 5, 9, 16, 17, 40, 256, 0, 0, 0, 0}
 	qualities := []int{0, 9, 10, 24, 25, 49, 50, 74, 75, 89, 90, 100}
 	maxDim := 24
 	reps := 1
